@@ -685,6 +685,22 @@ func checkC17(p *core.Program, r *core.Report) {
 	r.Floor(R3, 6)
 
 	// ---- R5: every change of the map is followed by a report of a later snapshot
+	const R6 = "C17.R6 report-reaches-the-application"
+	r.Rule(R6, "hub.ReportMdnsEntries calls VisibleRemoteServicesUpdated on every path - also for an empty snapshot (the removal of the last visible service is a change the application has to see); the mandatory-key table of the resolver callback still covers txtvers, id, path, ski and register (shared with C16.R1)")
+	if rep, mVis := p.Method("hub", "Hub", "ReportMdnsEntries"), p.IfaceMethod("api", "HubReaderInterface", "VisibleRemoteServicesUpdated"); rep == nil || mVis == nil {
+		r.Unresolved(R6, "hub.Hub.ReportMdnsEntries / HubReaderInterface.VisibleRemoteServicesUpdated")
+	} else {
+		must := core.NewMust(p, 2, func(in ssa.Instruction) bool { return core.IsInvokeOf(in, mVis) })
+		key := "hub.ReportMdnsEntries tells the application on every path"
+		if bad := core.MustPass(rep, nil, must.Instr, nil); bad != nil {
+			r.Fail(R6, key, p.Pos(bad.Pos()), "a path of ReportMdnsEntries returns without VisibleRemoteServicesUpdated (e.g. a quick exit for an empty snapshot): the application keeps a stale non-empty list after the last service disappeared")
+		} else {
+			r.OK(R6, key, p.Pos(rep.Pos()), "every snapshot is forwarded")
+		}
+	}
+	importRules(p, r, "C16", map[string]string{"C16.R1 txt-table-agreement": R6}, func(key string) bool {
+		return strings.HasPrefix(key, "reader demands ") || strings.HasPrefix(key, "mandatory key ")
+	})
 	const R5 = "C17.R5 change-implies-report"
 	r.Rule(R5, "every path of the resolver callback that modified entries dispatches a report (unless no report sink is registered)")
 	fReport := p.Field("mdns", "MdnsManager", "report")
@@ -729,7 +745,7 @@ func checkC17(p *core.Program, r *core.Report) {
 	// and the dispatched snapshot is taken after the modification: the copy call is dominated by ... (same function, later position on the path)
 	// ---- R4
 	for _, s := range det {
-		r.Fail(R4, "detached report in "+p.FnName(goOrigin(p, s.Fn)), p.Pos(s.In.Pos()), "each change reports its snapshot on its own goroutine (go report.ReportMdnsEntries): the goroutines of two consecutive changes can run in the opposite order, so the last list delivered to the application is not the final set", "events e1,e2 -> goroutine(e2) scheduled before goroutine(e1) -> hub stores/forwards e1's snapshot last")
+		r.Fail(R4, "detached report in "+p.FnName(opRoot(p, goOrigin(p, s.Fn))), p.Pos(s.In.Pos()), "each change reports its snapshot on its own goroutine (go report.ReportMdnsEntries): the goroutines of two consecutive changes can run in the opposite order, so the last list delivered to the application is not the final set", "events e1,e2 -> goroutine(e2) scheduled before goroutine(e1) -> hub stores/forwards e1's snapshot last")
 	}
 	for _, s := range syn {
 		r.OK(R4, "sequenced report in "+p.FnName(s.Fn), p.Pos(s.In.Pos()), "issued from the mutating context")
